@@ -190,8 +190,9 @@ def layout(pl, rng, p_sub=0.35, p_ignore=0.12, p_dup=0.12, p_second=0.1, p_third
                 # merged entry is checked by the walk
                 e2['bad_hash'] = True
                 e2['dup'] = 'manifest-twice-bad'
-            elif r < 0.4 and not getattr(pl, 'no_conflicts', False):
-                # ... or the file is listed as plain DATA as well, with a wrong digest
+            elif r < 0.4 and not getattr(pl, 'no_conflicts', False) and getattr(pl, 'allow_data_for_manifest', False):
+                # ... or the file is listed as plain DATA as well, with a wrong digest (verification streams only: for update
+                # this is the layout of the recorded finding F27)
                 e2['tag'] = 'DATA'
                 e2['bad_hash'] = True
                 e2['dup'] = 'data-for-manifest-bad'
